@@ -59,7 +59,7 @@ def main():
         if code:
             sys.exit("patch does not apply: %s" % out)
         env = {"PYTHONPATH": tree + "/src"}
-        code, out, wall = sh("/venv/bin/python -m pytest -q -p no:cacheprovider 2>&1 | tail -3",
+        code, out, wall = sh("/venv/bin/python -m pytest -q -p no:cacheprovider --timeout=900 2>&1 | tail -3",
                              env=env, cwd=tree)
         summary = out.strip().splitlines()[-1] if out.strip() else ""
         meta["repo_tests_with_change"] = summary
